@@ -12,4 +12,6 @@ import CuriesVerif.Lemmas.Lpi
 import CuriesVerif.Lemmas.Sort
 import CuriesVerif.Lemmas.WF
 import CuriesVerif.Lemmas.Refine
+import CuriesVerif.Lemmas.Longest
+import CuriesVerif.Lemmas.Laws
 import CuriesVerif.Properties.All
